@@ -668,6 +668,142 @@ func c05Maps(e *c05Env, lists [][]int) {
 	})
 }
 
+// c05Recheck: the laws must still hold for an EARLIER result after a second operation on the same receiver (a
+// receiver with spare capacity, as every Minus/Distinct/Filter result has)
+func c05Recheck(e *c05Env, lists [][]int) {
+	n := len(lists)
+	parallelFor(n*n, func(w, pi int) {
+		a, b := lists[pi/n], lists[pi%n]
+		if len(a) == 0 || len(b) == 0 {
+			return
+		}
+		third := lists[(pi*7+3)%n]
+		ops := []any{a, b, third}
+		e.law("law:Stream.Extend(result re-checked after a second Extend on the same receiver)", ops, true, func() string {
+			for fam := 0; fam < 2; fam++ {
+				var r1, want []int
+				if fam == 0 {
+					recv := fpgo.StreamFromArray(spareSlice(a, 6))
+					x1 := recv.Extend(fpgo.StreamFromArray(copyInts(b)))
+					_ = recv.Extend(fpgo.StreamFromArray(copyInts(third)), fpgo.StreamFromArray([]int{7, 7, 7}))
+					r1 = x1.ToArray()
+				} else {
+					sp := make([]interface{}, len(a), len(a)+6)
+					for i, v := range a {
+						sp[i] = v
+					}
+					recv := fpgo.StreamForInterface.FromArray(sp)
+					x1 := recv.Extend(fpgo.StreamForInterface.FromArray(box(b)))
+					_ = recv.Extend(fpgo.StreamForInterface.FromArray(box(third)), fpgo.StreamForInterface.FromArray([]interface{}{7, 7, 7}))
+					r1, _ = unbox(x1.ToArray())
+				}
+				want = append(copyInts(a), b...)
+				if !eqSeq(r1, want) {
+					return fmt.Sprintf("family %d: the first Extend result reads %v after a second Extend on the same receiver, want %v", fam, r1, want)
+				}
+			}
+			return ""
+		})
+		e.law("law:StreamSet.Union(result re-checked after a second Union on the same receiver)", ops, true, func() string {
+			for fam := 0; fam < 2; fam++ {
+				var u1 map[int][]int
+				if fam == 0 {
+					A := fpgo.StreamSetFromMap(map[int]*fpgo.StreamDef[int]{0: fpgo.StreamFromArray(spareSlice(a, 6))})
+					B := fpgo.StreamSetFromMap(map[int]*fpgo.StreamDef[int]{0: fpgo.StreamFromArray(copyInts(b))})
+					C := fpgo.StreamSetFromMap(map[int]*fpgo.StreamDef[int]{0: fpgo.StreamFromArray(append(copyInts(third), 8, 8))})
+					x := A.Union(B)
+					_ = A.Union(C)
+					u1 = ssGeneric(x)
+				} else {
+					sp := make([]interface{}, len(a), len(a)+6)
+					for i, v := range a {
+						sp[i] = v
+					}
+					A := fpgo.StreamSetForInterfaceFromMap(map[interface{}]*fpgo.StreamForInterfaceDef{0: fpgo.StreamForInterface.FromArray(sp)})
+					B := fpgo.StreamSetForInterfaceFromMap(map[interface{}]*fpgo.StreamForInterfaceDef{0: fpgo.StreamForInterface.FromArray(box(b))})
+					C := fpgo.StreamSetForInterfaceFromMap(map[interface{}]*fpgo.StreamForInterfaceDef{0: fpgo.StreamForInterface.FromArray(box(append(copyInts(third), 8, 8)))})
+					x := A.Union(B)
+					_ = A.Union(C)
+					u1, _ = ssTwin(x)
+				}
+				for xv := -1; xv <= 9; xv++ {
+					if has(u1[0], xv) != (has(a, xv) || has(b, xv)) {
+						return fmt.Sprintf("family %d: after a second Union on the same receiver the first result's stream reads %v: membership of %d is wrong (operands %v, %v)", fam, u1[0], xv, a, b)
+					}
+				}
+			}
+			return ""
+		})
+	})
+}
+
+// c05Large: operands big enough for any size-dependent fast path (hundreds of elements, duplicates inside one
+// operand, elements missing from another one)
+func c05Large(e *c05Env, c *core.Ctx) {
+	rng := c.Rng("c05-large")
+	mk := func(n, alpha int) []int {
+		l := make([]int, n)
+		for i := range l {
+			l[i] = rng.Intn(alpha)
+			if i > 0 && rng.Intn(4) == 0 {
+				l[i] = l[rng.Intn(i)] // duplicates
+			}
+		}
+		return l
+	}
+	for t := 0; t < c.Pick(24, 400); t++ {
+		n := []int{260, 300, 700, 1500}[t%4]
+		a, b, cc := mk(n, n+40), mk(n, n+40), mk(n/2+20, n+40)
+		ops := fmt.Sprintf("three PRNG lists of %d/%d/%d elements over %d symbols", len(a), len(b), len(cc), n+40)
+		e.law("law:Intersection/Difference(large operands)", ops, true, func() string {
+			in, d := fpgo.Intersection(a, b, cc), fpgo.Difference(a, b, cc)
+			inb, ok := unbox(fpgo.IntersectionForInterface(box(a), box(b), box(cc)))
+			sa, sb, sc := map[int]bool{}, map[int]bool{}, map[int]bool{}
+			for _, x := range a {
+				sa[x] = true
+			}
+			for _, x := range b {
+				sb[x] = true
+			}
+			for _, x := range cc {
+				sc[x] = true
+			}
+			for x := 0; x < n+40; x++ {
+				if has(in, x) != (sa[x] && sb[x] && sc[x]) {
+					return fmt.Sprintf("Intersection membership of %d wrong (in a:%v b:%v c:%v)", x, sa[x], sb[x], sc[x])
+				}
+				if has(d, x) != (sa[x] && !sb[x] && !sc[x]) {
+					return fmt.Sprintf("Difference membership of %d wrong", x)
+				}
+			}
+			if !noDup(in) || !followsOrder(in, a) || !noDup(d) {
+				return "duplicates or wrong order in a large Intersection/Difference"
+			}
+			if !ok || !eqSeq(in, inb) {
+				return "the interface{} twin of Intersection disagrees on large operands"
+			}
+			u := fpgo.Union(a, b)
+			for x := 0; x < n+40; x++ {
+				if has(u, x) != (sa[x] || sb[x]) {
+					return fmt.Sprintf("Union membership of %d wrong", x)
+				}
+			}
+			if !eqSeq(fpgo.Minus(a, b), func() []int {
+				o := []int{}
+				for _, x := range a {
+					if !sb[x] {
+						o = append(o, x)
+					}
+				}
+				return o
+			}()) {
+				return "Minus wrong on large operands"
+			}
+			return ""
+		})
+	}
+}
+
 func init() {
 	core.Register(&core.Check{
 		ID: "C05",
@@ -690,6 +826,8 @@ func init() {
 			c05Maps(e, lists)
 			c05Triples(e, c05Lists(L-1))
 			c05StreamSets(e)
+			c05Recheck(e, lists)
+			c05Large(e, c)
 			// PRNG operands, longer lists
 			rng := c.Rng("c05")
 			var rl [][]int
